@@ -95,7 +95,12 @@ def _case(draw, topology, steps):
     ops += [{"op": "self"}, {"op": "detect"}]
     other = [draw(specs(k, size_lo=0.05, size_hi=1.0, pos_radius=1.0))
              for k in draw(st.lists(st.sampled_from(["sphere", "box", "cylinder"]), min_size=0, max_size=3))]
-    return {"links": links, "joints": joints, "extras": extras, "ops": ops, "other": other}
+    # declaration order of <link> and <joint> elements is arbitrary in URDF;
+    # it determines the iteration order of the colliders
+    link_order = draw(st.permutations(list(range(n))))
+    joint_order = draw(st.permutations(list(range(len(joints)))))
+    return {"links": links, "joints": joints, "extras": extras, "ops": ops, "other": other,
+            "link_order": list(link_order), "joint_order": list(joint_order)}
 
 
 def strategy(cell):
@@ -104,7 +109,8 @@ def strategy(cell):
 
 def urdf_text(case):
     out = ['<?xml version="1.0"?>', '<robot name="gen">']
-    for i, l in enumerate(case["links"]):
+    for i in case.get("link_order") or range(len(case["links"])):
+        l = case["links"][i]
         out.append('<link name="l%d">' % i)
         for gi, g in enumerate(l["geoms"]):
             nm = ' name="g%d"' % gi if g["named"] else ""
@@ -118,7 +124,8 @@ def urdf_text(case):
                 out.append('<cylinder radius="%r" length="%r"/>' % (g["radius"], g["length"]))
             out.append('</geometry></collision>')
         out.append('</link>')
-    for k, j in enumerate(case["joints"]):
+    for k in case.get("joint_order") or range(len(case["joints"])):
+        j = case["joints"][k]
         out.append('<joint name="j%d" type="%s"><parent link="l%d"/><child link="l%d"/>'
                    '<origin xyz="%r %r %r" rpy="%r %r %r"/><axis xyz="%r %r %r"/>'
                    '<limit lower="%r" upper="%r"/></joint>' % (
